@@ -44,6 +44,23 @@ func httpPreludeFor(pkgDir, pkgName string) []byte {
 	return []byte(strings.Replace(string(data), "package PKGNAME", "package "+pkgName, 1))
 }
 
+// dirUses: harness directory -> shared harness parts it opted into with //vp:use NAME
+// (/verif/harness/shared/NAME.go.tmpl, "package PKGNAME").
+var dirUses = map[string][]string{}
+
+// sharedFor returns the shared harness parts of a package directory: overlay file name -> content.
+func sharedFor(pkgDir, pkgName string) (map[string][]byte, error) {
+	out := map[string][]byte{}
+	for _, name := range dirUses[pkgDir] {
+		data, err := os.ReadFile(filepath.Join(verifRoot, "harness", "shared", name+".go.tmpl"))
+		if err != nil {
+			return nil, err
+		}
+		out["zz_vpshared_"+name+".go"] = []byte(strings.Replace(string(data), "package PKGNAME", "package "+pkgName, 1))
+	}
+	return out, nil
+}
+
 // loadProgram type-checks the needed packages of /repo's current working tree with the
 // harness files and the prelude overlaid, and builds SSA (bodies lazily per package).
 func loadProgram(pkgDirs []string, all []*Harness, work string) (*Loaded, error) {
@@ -86,6 +103,13 @@ func loadProgram(pkgDirs []string, all []*Harness, work string) (*Loaded, error)
 		ld.Overlay[filepath.Join(*flagRepo, d, "zz_vpprelude.go")] = pre
 		if hp := httpPreludeFor(d, pkgName); hp != nil {
 			ld.Overlay[filepath.Join(*flagRepo, d, "zz_vpprelude_http.go")] = hp
+		}
+		sh, err := sharedFor(d, pkgName)
+		if err != nil {
+			return nil, err
+		}
+		for fn, data := range sh {
+			ld.Overlay[filepath.Join(*flagRepo, d, fn)] = data
 		}
 	}
 	cfg := &packages.Config{
